@@ -181,7 +181,8 @@ def generate(seed: int, tier: str = "quick") -> Dict[str, Any]:
     groups = _lookalike_groups(subs)
     ops: List[Dict[str, Any]] = []
     kind = rng.choice(["reactor"] * 6 + ["mixed"] * 2 + ["sub"] * 2)
-    n_ops = rng.randint(3, 9)
+    deep = tier == "thorough" and rng.random() < 0.4
+    n_ops = rng.randint(8, 16) if deep else rng.randint(3, 9)
     faulty = rng.random() < 0.8
     k = 0
 
@@ -191,7 +192,7 @@ def generate(seed: int, tier: str = "quick") -> Dict[str, Any]:
         return derive(seed, "op", k)
 
     def gen_entries() -> List[int]:
-        n = rng.randint(1, 12)
+        n = rng.randint(6, 20) if deep else rng.randint(1, 12)
         if rng.random() < 0.7:
             g = rng.choice(groups)
             base = [rng.choice(g) for _ in range(n)]
